@@ -33,6 +33,9 @@ CORPUS = [
     # register / the slot is overwritten
     "main:\n    addi sp, sp, -8\n    sw zero, 0(sp)\n    lw t3, 0(sp)\n    li t3, 5\n    addi a0, t3, 1\n    addi sp, sp, 8\n    li a7, 93\n    ecall\n",
     "main:\n    addi sp, sp, -8\n    li t0, 7\n    sw zero, 4(sp)\n    sw t0, 4(sp)\n    lw a0, 4(sp)\n    addi a0, a0, 1\n    addi sp, sp, 8\n    li a7, 93\n    ecall\n",
+    # two exit services sharing the last ecall: the second one is recognised only after the first
+    # round has cut the fall-through from the exit before it
+    "main:\n    li a7, 93\n    bnez a0, quit\n    jal helper\n    li a7, 1\n    ecall\n    li a7, 10\n    ecall\nquit:\n    ecall\nhelper:\n    li a0, 42\n    ret\n",
     # computations into the zero register, then uses of x0
     "main:\n    li t0, 5\n    li t1, 6\n    add x0, t0, t1\n    addi a0, x0, 1\n    li a7, 1\n    ecall\n    li a7, 10\n    ecall\n",
     "main:\n    addi sp, sp, -8\n    li t0, 9\n    sw t0, 4(sp)\n    lw zero, 4(sp)\n    add a0, zero, zero\n    addi a0, zero, 2\n    addi sp, sp, 8\n    li a7, 93\n    ecall\n",
@@ -163,6 +166,11 @@ def run_graph_property(res, tier, seed, stages, oracle, n_quick=120, n_thorough=
     """oracle(src, impl_block, rng) -> error string or None. Returns (first_failure, corr_failure)."""
     rng = random.Random(seed)
     srcs = gen_programs(rng, n_quick if tier == "quick" else n_thorough, sloppy_choices)
+    # the witnesses of this property's recorded findings are replayed separately (KNOWN-FINDING
+    # lines); the same input met again in the corpus is not a new violation
+    import findings
+    known = {f["input"] for f in findings.load() if res.pid in f["properties"]}
+    srcs = [s for s in srcs if s not in known]
     inputs = [[("m.s", s)] for s in srcs]
     impl, models, bad = correspondence(stages, inputs, extra=extra)
     first = None
